@@ -91,6 +91,7 @@ def main(pid, modname, tier, replay_path=None):
     jobs = [(i, c, opts if c.get('_kind', 'explore') == 'explore' else {}) for i, c in enumerate(cases)]
     order = list(range(len(jobs)))
     rnd.shuffle(order)
+    order.sort(key=lambda i: -cases[i].get('nb', 0) * 10 - len(cases[i].get('regions', [])))  # biggest first
     jobs = [jobs[i] for i in order]
     nproc = min(int(os.environ.get('VERIF_JOBS', '16')), max(1, len(jobs)))
     ctx = mp.get_context('fork')
